@@ -168,6 +168,35 @@ func (l *Locks) lockClass(v ssa.Value) string {
 				}
 			}
 		}
+	case *ssa.Parameter:
+		// a mutex handed to a helper (closeLocked(mu, …)): the class every call site passes, when they agree
+		if c, ok := l.aliasMemo["param:"+a.Parent().String()+"."+a.Name()]; ok {
+			return c
+		}
+		idx := -1
+		for i, q := range a.Parent().Params {
+			if q == a {
+				idx = i
+			}
+		}
+		sites := l.p.CallSitesOf(a.Parent())
+		cls := map[string]bool{}
+		for _, s := range sites {
+			ci, isCall := s.Ins.(ssa.CallInstruction)
+			if !isCall || ci.Common().IsInvoke() || idx < 0 || idx >= len(ci.Common().Args) {
+				cls["?"] = true
+				continue
+			}
+			cls[l.lockClass(ci.Common().Args[idx])] = true
+		}
+		if len(cls) == 1 && len(sites) > 0 {
+			for k := range cls {
+				if !strings.HasPrefix(k, "?") {
+					l.aliasMemo["param:"+a.Parent().String()+"."+a.Name()] = k
+					return k
+				}
+			}
+		}
 	case *ssa.Alloc:
 		return "local:" + Short(a.Parent().String()) + "." + a.Comment
 	case *ssa.Global:
